@@ -10,3 +10,7 @@ fp("dask/dataframe/dask_expr/_expr.py", "CreateOverlappingPartitions._layer", "_
    "Shift.before", "Shift.after", "Diff.before", "Diff.after", "FFill.before", "FFill.after", "BFill.before", "BFill.after")
 fp("dask/dataframe/rolling.py", "overlap_chunk")
 fp("dask/dataframe/dask_expr/_rolling.py", "RollingReduction._lower", "RollingReduction._is_blockwise_op")
+
+# C36
+fp("dask/dataframe/dask_expr/_expr.py", "Blockwise._task", "Blockwise._blockwise_arg", "Blockwise._broadcast_dep",
+   "Blockwise._divisions", "Filter", "Projection", "Assign", "are_co_aligned", "MaybeAlignPartitions._lower")
